@@ -274,6 +274,10 @@ def build_all(tier, jobs):
     for u in units:
         seen[u.binary()] = u
     res = build_units(list(seen.values()), jobs)
+    for p in all_props():
+        sp = load_spec(p)
+        if hasattr(sp, 'prebuild'):
+            sp.prebuild(tier, jobs)
     bad = [(u.name, log) for (u, ok, log) in res if not ok]
     print('build-all: %d binaries, %d compile failures (reported by the owning check), %.0fs' % (len(res), len(bad), time.time() - t0))
     return 0
